@@ -62,6 +62,7 @@ type S struct {
 	locks   map[uintptr]*lockState
 	choose  Chooser
 	free    bool // free-run mode: points are no-ops, parked tasks are released
+	abort   bool // abort mode: every task exits (runtime.Goexit) at its next point
 	cur     *Task
 	wg      sync.WaitGroup
 	Steps   int
@@ -146,9 +147,41 @@ func (s *S) park(t *Task, kind opKind, key uintptr, site string) {
 		s.mu.Unlock()
 		return
 	}
+	if s.abort {
+		s.mu.Unlock()
+		runtime.Goexit()
+	}
 	t.parked, t.kind, t.lockKey, t.Site, t.blockedS = true, kind, key, site, ""
 	s.mu.Unlock()
 	<-t.wake
+	s.mu.Lock()
+	ab := s.abort
+	s.mu.Unlock()
+	if ab {
+		runtime.Goexit()
+	}
+}
+
+// Abort ends the run: every task exits (runtime.Goexit, deferred calls run) at the point where it is
+// parked or at the next point it reaches; the caller must first make every really blocked task able
+// to move (cancel contexts). Unlike Finish it also terminates after a realised deadlock, because no
+// task ever touches a real lock again.
+func (s *S) Abort() {
+	s.mu.Lock()
+	s.abort = true
+	var rel []*Task
+	for _, t := range s.tasks {
+		if t.parked {
+			t.parked = false
+			rel = append(rel, t)
+		}
+	}
+	s.mu.Unlock()
+	for _, t := range rel {
+		t.wake <- struct{}{}
+	}
+	s.wg.Wait()
+	active.CompareAndSwap(s, nil)
 }
 
 func (s *S) enabled(t *Task) bool {
@@ -374,6 +407,10 @@ func current(site string) (*S, *Task) {
 		s.mu.Unlock()
 		return nil, nil
 	}
+	if s.abort {
+		s.mu.Unlock()
+		runtime.Goexit()
+	}
 	t := s.taskForCurrent("")
 	s.mu.Unlock()
 	return s, t
@@ -422,19 +459,59 @@ func Lock(x any, site string) {
 	l.Lock() // free by construction of the shadow state (all lockers of instrumented packages go through here)
 }
 
+// aborting reports the active scheduler when it is in abort mode, with the calling task (or nil).
+func aborting() (*S, *Task) {
+	s := active.Load()
+	if s == nil {
+		return nil, nil
+	}
+	s.mu.Lock()
+	defer s.mu.Unlock()
+	if !s.abort {
+		return nil, nil
+	}
+	return s, s.byGid[goid()]
+}
+
+func holds(t *Task, key uintptr) bool {
+	if t == nil {
+		return false
+	}
+	for _, k := range t.held {
+		if k == key {
+			return true
+		}
+	}
+	return false
+}
+
 func Unlock(x any, site string) {
 	v, key := resolve(x)
 	l := v.Interface().(locker)
+	if s, t := aborting(); s != nil {
+		// abort mode: a task that exits at a point where it had temporarily released a lock must not
+		// unlock it again from its deferred calls; unlock only what the shadow state says it holds
+		s.mu.Lock()
+		h := holds(t, key)
+		if h {
+			dropHeld(t, key)
+			if ls := s.locks[key]; ls != nil {
+				ls.writer = nil
+			}
+		}
+		s.mu.Unlock()
+		if h {
+			l.Unlock()
+		}
+		return
+	}
 	l.Unlock()
 	s, t := current(site)
 	if s == nil {
 		return
 	}
 	s.mu.Lock()
-	if ls := s.locks[key]; ls != nil && ls.writer == t {
-		ls.writer = nil
-	} else if ls != nil && ls.writer != nil {
-		// unlocked by another goroutine than the locker (legal for sync.Mutex)
+	if ls := s.locks[key]; ls != nil {
 		ls.writer = nil
 	}
 	dropHeld(t, key)
@@ -460,6 +537,21 @@ func RLock(x any, site string) {
 func RUnlock(x any, site string) {
 	v, key := resolve(x)
 	rl := v.Interface().(rlocker)
+	if s, t := aborting(); s != nil {
+		s.mu.Lock()
+		h := holds(t, key)
+		if h {
+			dropHeld(t, key)
+			if ls := s.locks[key]; ls != nil {
+				delete(ls.readers, t)
+			}
+		}
+		s.mu.Unlock()
+		if h {
+			rl.RUnlock()
+		}
+		return
+	}
 	rl.RUnlock()
 	s, t := current(site)
 	if s == nil {
